@@ -406,6 +406,9 @@ func pathUrl(p path.Path) string {
 		b = append(b, t...)
 		b = append(b, '/')
 	}
+	if len(b) == 0 {
+		return ""
+	}
 	return string(b[0 : len(b)-1])
 }
 
@@ -919,6 +922,9 @@ func torfile(w http.ResponseWriter, r *http.Request, t *tor.Torrent) {
 var m3uTitle = strings.NewReplacer(",", "", "\n", " ", "\r", " ")
 
 func m3uentry(w http.ResponseWriter, host string, hash hash.Hash, path path.Path) {
+	if len(path) == 0 {
+		return
+	}
 	fmt.Fprintf(w, "#EXTINF:-1,%v\n",
 		m3uTitle.Replace(path[len(path)-1]))
 	fmt.Fprintf(w, "http://%v/%v/%v\n",
